@@ -465,7 +465,7 @@ impl Family for OneShortWrite {
         if !o.res.is_ok() {
             return Err(Violation::new("result-not-ok", format!("{}: run_on returned {}", what, o.res.short())));
         }
-        if o.sim.out != base.sim.out {
+        if after_greeting(&o.sim.out) != after_greeting(&base.sim.out) {
             // same bytes in the same order is what a short write must lead to
             let d = decode_all(delivered(&o), &conv, &last_seq, 2, false).map_err(|e| {
                 let mut v = seq_violation(e);
